@@ -169,6 +169,12 @@ class Observer:
             obs["kind"] = classify(exc, bw.exc.values())
             obs["ret"] = ""
             obs["err"] = describe(exc)
+            if obs["kind"] in ("nomethod", "ambiguous"):
+                # the very object an earlier call of this observer already got (kept alive here, so identity is meaningful)
+                raised = self.__dict__.setdefault("raised", [])
+                if any(exc is e for e in raised):
+                    obs["reused"] = True
+                raised.append(exc)
             if obs["kind"] == "internal":
                 obs["tb"] = [f"{a}:{b}" for a, b in tb_files(exc.__traceback__)][-4:]
             exc.__traceback__ = None
